@@ -702,8 +702,10 @@ class VBSClusteringManager:
                 "clusterCardinalitySize": self._cluster.cardinality,
             }
             if self._cluster.profiles:
-                cluster_info["clusterProfiles"] = self._encode_cluster_profiles(
-                    self._cluster.profiles
+                # A BIT STRING value is a (bytes, number of bits) pair; VruClusterProfiles has SIZE(4).
+                cluster_info["clusterProfiles"] = (
+                    self._encode_cluster_profiles(self._cluster.profiles),
+                    4,
                 )
 
             return {"vruClusterInformation": cluster_info}
